@@ -25,7 +25,7 @@ Definition isloc (o : out) : bool := match o with OActive _ | OInactive _ => tru
 Definition ftr (v : mv) : list out := filter famo (a_outs v).
 Definition loc (v : mv) : list out := filter isloc (a_outs v).
 
-Ltac gu := unfold set_tdue_v, set_now_v, set_cc_v, set_ton_v, set_lsc_v, arm_v, aemit; gv.
+Ltac gu := unfold set_tdue_v, set_now_v, set_cc_v, set_ton_v, set_lsc_v, arm_v, armt_v, ahalt, aemit; gv.
 
 (* ---------- time never goes back on the machine ---------- *)
 Ltac ifs := repeat match goal with |- context[if ?b then _ else _] => destruct b end.
@@ -50,9 +50,14 @@ Lemma now_strig c a v : a_now v <= a_now (strig c a v).
 Proof. unfold strig. ifs; rewrite ?now_etrig; try lia. apply now_onA. Qed.
 Lemma now_legH c st_ v : a_now v <= a_now (legH c st_ v).
 Proof.
-  unfold legH. cbv zeta. ifs; try (gu; lia).
+  unfold legH. cbv zeta.
+  set (v0 := set_ton_v false v). assert (E0 : a_now v0 = a_now v) by reflexivity. clearbody v0.
+  set (v1 := leg_count c st_ v0).
+  assert (E1 : a_now v1 = a_now v0) by (subst v1; unfold leg_count; ifs; reflexivity).
+  clearbody v1. destruct (a_halted v1); [lia|]. ifs.
   - eapply Z.le_trans; [|apply now_onA]. gu. lia.
-  - eapply Z.le_trans; [|apply now_onI]. gu. lia.
+  - eapply Z.le_trans; [|apply now_onA]. gu. lia.
+  - eapply Z.le_trans; [|apply now_onI]. lia.
 Qed.
 Lemma now_advH c st_ v : a_now v <= a_now (advH c st_ v).
 Proof.
@@ -60,10 +65,14 @@ Proof.
   set (v0 := set_ton_v false v). assert (E0 : a_now v <= a_now v0) by (subst v0; gu; lia). clearbody v0.
   set (v1 := if negb (a_cc v0 =? -1) && counts_click c st_ then _ else v0).
   assert (E1 : a_now v0 <= a_now v1).
-  { subst v1. ifs; try lia.
-    - eapply Z.le_trans; [|apply now_onA]. rewrite now_etrig. gu. lia.
-    - rewrite now_etrig. gu. lia.
-    - gu. lia. }
+  { subst v1. destruct (negb (a_cc v0 =? -1) && counts_click c st_); [|lia].
+    set (vb := if (is_bi c || is_motion c) && (st_ =? ST_ACTIVE) then _ else _).
+    assert (Eb : a_now v0 <= a_now vb).
+    { subst vb. ifs.
+      - eapply Z.le_trans; [|apply now_onA]. rewrite now_etrig. gu. lia.
+      - rewrite now_etrig. gu. lia.
+      - gu. lia. }
+    clearbody vb. destruct (on_toggle_en c && _); [gu; lia|lia]. }
   clearbody v1. destruct (a_halted v1); [lia|].
   set (v2 := if st_ =? ST_INACTIVE then _ else v1).
   assert (E2 : a_now v1 <= a_now v2).
@@ -83,12 +92,16 @@ Proof.
   unfold advT. cbv zeta.
   set (v1 := if is_mono c && (a_last v =? ST_ACTIVE) && negb (a_cc v =? -1) then _ else v).
   assert (E1 : a_now v <= a_now v1).
-  { subst v1. ifs; try lia. unfold set_ton_v, set_cc_v. gv. rewrite now_etrig. lia. }
+  { subst v1. destruct (is_mono c && _ && _); [|lia].
+    set (va := if on_hold_en c && _ then _ else v). assert (Ea : a_now va = a_now v) by (subst va; ifs; reflexivity).
+    clearbody va. ifs; try lia; unfold set_ton_v, set_cc_v; gv; rewrite now_etrig; lia. }
   clearbody v1. ifs; try lia.
   - unfold set_cc_v. gv. eapply Z.le_trans; [exact E1|]. eapply Z.le_trans; [|apply now_strig]. gu. lia.
   - unfold set_cc_v, set_ton_v. gv. eapply Z.le_trans; [exact E1|]. apply now_strig.
   - unfold set_cc_v. gv. eapply Z.le_trans; [exact E1|]. apply now_strig.
 Qed.
+Lemma now_legT c v : a_now v <= a_now (legT c v).
+Proof. unfold legT. ifs; [gu|]; lia. Qed.
 Lemma now_motV c v : a_now v <= a_now (motV c v).
 Proof. unfold motV. ifs; try lia; [apply now_onA|apply now_onI]. Qed.
 Lemma now_aact c a v : a_now v <= a_now (aact c a v).
@@ -96,7 +109,7 @@ Proof.
   unfold aact. destruct (a_halted v); [lia|]. destruct a.
   - destruct (a_now v <=? t) eqn:E; [apply Z.leb_le in E; gu; lia|lia].
   - apply now_notifyV.
-  - ifs; try lia. + eapply Z.le_trans; [|apply now_advT]. gu. lia. + gu. lia.
+  - ifs; try lia. + eapply Z.le_trans; [|apply now_advT]. gu. lia. + eapply Z.le_trans; [|apply now_legT]. gu. lia.
   - apply now_motV.
   - reflexivity.
   - lia.
@@ -122,18 +135,22 @@ Definition toff (A nw : Z) : list out :=
 
 Lemma ev_press nw k mx A g ls si tn td ta rl ou :
   A <> 0 -> k <> -1 -> -100 <= k <= 100 ->
+  (on_toggle_en c = false \/ k + 1 < CFG_PRESS_COUNT) ->            (* not the press that enters configuration mode *)
   asilent_ret c (mkmv nw ST_INACTIVE k mx A g ls si tn td ta rl false ou) = false ->   (* the silent start-up period is over *)
   aact c (ANotify ST_ACTIVE) (mkmv nw ST_INACTIVE k mx A g ls si tn td ta rl false ou) =
   mkmv nw ST_ACTIVE (k + 1) mx A g (u32 (boot c + nw)) false true (nw + CYCLE_US) true rl false
        (ONotify nw ST_ACTIVE ST_INACTIVE k :: ou).
 Proof.
-  intros HA Hk Hr Hsil. ty. unfold aact. gv. unfold notifyV. cbv zeta.
+  intros HA Hk Hr Htg Hsil. ty. unfold aact. gv. unfold notifyV. cbv zeta.
   change (asilent_ret c (aemit _ _)) with (asilent_ret c (mkmv nw ST_INACTIVE k mx A g ls si tn td ta rl false ou)).
   rewrite Hsil. gv. kc. cbv iota.
   replace (A =? 0) with false by (symmetry; apply Z.eqb_neq; exact HA). gv.
-  unfold advH. cbv zeta. gv.
+  unfold advH. cbv zeta. unfold set_ton_v. gv.
   replace (k =? -1) with false by (symmetry; apply Z.eqb_neq; exact Hk). gv.
-  unfold counts_click. rewrite Hmono, Tb, Tm. kc. gv. rewrite s8_small by lia. unfold anow32. gv. reflexivity.
+  unfold counts_click. rewrite Hmono, Tb, Tm. kc. gv. rewrite s8_small by lia. unfold set_cc_v. gv.
+  replace (on_toggle_en c && (CFG_PRESS_COUNT <=? k + 1)) with false.
+  2:{ symmetry. destruct Htg as [-> | Htg]; [reflexivity|]. replace (CFG_PRESS_COUNT <=? k + 1) with false by (symmetry; apply Z.leb_gt; exact Htg). apply andb_false_r. }
+  gv. unfold arm_v, anow32. gv. reflexivity.
 Qed.
 
 Lemma ev_press_ovf nw mx A g ls tn td ta rl ou :
@@ -179,29 +196,51 @@ Proof. intros H. unfold aact. gv. rewrite H. reflexivity. Qed.
 
 Lemma ev_tim_pressed nw k mx A g T td rl ou :
   td <= nw -> 0 <= nw - T < TWO32 -> (k <> 1 \/ nw - T < HOLD_US) ->
+  (on_hold_en c = false \/ nw - T < CFG_PRESS_US) ->               (* not the hold that enters configuration mode *)
   aact c ATim (mkmv nw ST_ACTIVE k mx A g (u32 (boot c + T)) false true td true rl false ou) =
   mkmv nw ST_ACTIVE k mx A g (u32 (boot c + T)) false true (td + CYCLE_US) true rl false ou.
 Proof.
-  intros Hd HT Hk. ty. unfold aact. gv. replace (td <=? nw) with true by (symmetry; apply Z.leb_le; exact Hd). cbv zeta iota. gv.
+  intros Hd HT Hk Hcp. ty. unfold aact. gv. replace (td <=? nw) with true by (symmetry; apply Z.leb_le; exact Hd). cbv zeta iota. gv.
+  unfold set_tdue_v. gv.
   unfold advT. cbv zeta. gv. unfold anow32. gv. rewrite u32_diff_shift by exact HT.
   rewrite Hmono, Tb, Tm. kc. gv.
   assert (E : (k =? 1) && (HOLD_US <=? nw - T) = false).
   { destruct Hk as [Hk|Hk]; [replace (k =? 1) with false by (symmetry; apply Z.eqb_neq; exact Hk); reflexivity|].
     replace (HOLD_US <=? nw - T) with false by (symmetry; apply Z.leb_gt; exact Hk). apply andb_false_r. }
-  destruct (negb (k =? -1)); gv; rewrite ?E; gv; kc; gv; reflexivity.
+  assert (E2 : on_hold_en c && (CFG_PRESS_US <=? nw - T) = false).
+  { destruct Hcp as [-> | Hcp]; [reflexivity|]. replace (CFG_PRESS_US <=? nw - T) with false by (symmetry; apply Z.leb_gt; exact Hcp). apply andb_false_r. }
+  destruct (negb (k =? -1)); gv; rewrite ?E2; gv; rewrite ?E; gv; kc; gv; reflexivity.
 Qed.
 
 Lemma ev_tim_hold nw mx A g T td rl ou :
   td <= nw -> 0 <= nw - T < TWO32 -> HOLD_US <= nw - T ->
+  (on_hold_en c = false \/ nw - T < CFG_PRESS_US) ->
   aact c ATim (mkmv nw ST_ACTIVE 1 mx A g (u32 (boot c + T)) false true td true rl false ou) =
-  mkmv nw ST_ACTIVE 0 mx A g (u32 (boot c + T)) false false (td + CYCLE_US) true rl false (trig_out A nw CAP_HOLD ++ ou).
+  mkmv nw ST_ACTIVE 0 mx A g (u32 (boot c + T)) false (on_hold_en c) (td + CYCLE_US) true rl false (trig_out A nw CAP_HOLD ++ ou).
 Proof.
-  intros Hd HT Hh. ty. unfold aact. gv. replace (td <=? nw) with true by (symmetry; apply Z.leb_le; exact Hd). cbv zeta iota. gv.
+  intros Hd HT Hh Hcp. ty. unfold aact. gv. replace (td <=? nw) with true by (symmetry; apply Z.leb_le; exact Hd). cbv zeta iota. gv.
   unfold set_tdue_v. gv.
   unfold advT. cbv zeta. gv. unfold anow32. gv. rewrite u32_diff_shift by exact HT.
   rewrite Hmono, Tb, Tm. kc. gv.
-  replace (HOLD_US <=? nw - T) with true by (symmetry; apply Z.leb_le; exact Hh). cbv iota.
-  rewrite etrig_eq. unfold set_cc_v. gv. unfold set_ton_v. gv. kc. gv. reflexivity.
+  replace (on_hold_en c && (CFG_PRESS_US <=? nw - T)) with false.
+  2:{ symmetry. destruct Hcp as [-> | Hcp]; [reflexivity|]. replace (CFG_PRESS_US <=? nw - T) with false by (symmetry; apply Z.leb_gt; exact Hcp). apply andb_false_r. }
+  gv. kc. replace (HOLD_US <=? nw - T) with true by (symmetry; apply Z.leb_le; exact Hh). cbv iota.
+  rewrite etrig_eq. unfold set_cc_v. gv. destruct (on_hold_en c); [reflexivity|]. unfold set_ton_v. gv. reflexivity.
+Qed.
+
+(* held after the HOLD trigger: with the configuration-button hold the timer keeps running, without effect *)
+Lemma ev_tim_held nw mx A g T td rl ou :
+  td <= nw -> 0 <= nw - T < TWO32 -> (on_hold_en c = false \/ nw - T < CFG_PRESS_US) ->
+  aact c ATim (mkmv nw ST_ACTIVE 0 mx A g (u32 (boot c + T)) false true td true rl false ou) =
+  mkmv nw ST_ACTIVE 0 mx A g (u32 (boot c + T)) false true (td + CYCLE_US) true rl false ou.
+Proof.
+  intros Hd HT Hcp. ty. unfold aact. gv. replace (td <=? nw) with true by (symmetry; apply Z.leb_le; exact Hd). cbv zeta iota. gv.
+  unfold set_tdue_v. gv.
+  unfold advT. cbv zeta. gv. unfold anow32. gv. rewrite u32_diff_shift by exact HT.
+  rewrite Hmono, Tb, Tm. kc. gv.
+  replace (on_hold_en c && (CFG_PRESS_US <=? nw - T)) with false.
+  2:{ symmetry. destruct Hcp as [-> | Hcp]; [reflexivity|]. replace (CFG_PRESS_US <=? nw - T) with false by (symmetry; apply Z.leb_gt; exact Hcp). apply andb_false_r. }
+  gv. kc. gv. reflexivity.
 Qed.
 
 Lemma ev_tim_rel_noop nw k mx A g T td rl ou :
@@ -325,9 +364,10 @@ Proof.
 Qed.
 
 Lemma P_step T k F L v a : PSt T k F L v -> idle a = true -> (k <> 1 \/ a_now v - T < HOLD_US) -> a_now v - T < TWO32 ->
+  (on_hold_en c = false \/ a_now v - T < CFG_PRESS_US) ->
   PSt T k F L (aact c a v).
 Proof.
-  intros HP Hi Hk Ht. revert Hk Ht. destruct HP as [nw td ou H1 H2 H3]. intros Hk Ht. cbn [a_now] in *. ty. destruct a; try discriminate.
+  intros HP Hi Hk Ht Hcp. revert Hk Ht Hcp. destruct HP as [nw td ou H1 H2 H3]. intros Hk Ht Hcp. cbn [a_now] in *. ty. destruct a; try discriminate.
   - unfold aact. gv. destruct (nw <=? t) eqn:E; [apply Z.leb_le in E; unfold set_now_v; gv; constructor; try assumption; lia|constructor; assumption].
   - destruct (td <=? nw) eqn:E.
     + apply Z.leb_le in E. rewrite ev_tim_pressed by (try assumption; lia). constructor; assumption.
@@ -340,13 +380,14 @@ Qed.
 Definition all_idle (l : list astep) : Prop := forallb idle l = true.
 
 Lemma P_run T k F L l : forall v, PSt T k F L v -> all_idle l ->
-  (k <> 1 \/ a_now (arun c l v) - T < HOLD_US) -> a_now (arun c l v) - T < TWO32 -> PSt T k F L (arun c l v).
+  (k <> 1 \/ a_now (arun c l v) - T < HOLD_US) -> a_now (arun c l v) - T < TWO32 ->
+  (on_hold_en c = false \/ a_now (arun c l v) - T < CFG_PRESS_US) -> PSt T k F L (arun c l v).
 Proof.
-  induction l as [|a l IH]; intros v HP Hi Hk Ht; [exact HP|].
+  induction l as [|a l IH]; intros v HP Hi Hk Ht Hcp; [exact HP|].
   unfold all_idle in Hi. cbn in Hi. apply andb_prop in Hi as [Hi1 Hi2].
   change (arun c (a :: l) v) with (arun c l (aact c a v)) in *.
   pose proof (now_arun c l (aact c a v)). pose proof (now_aact c a v).
-  apply IH; try assumption. apply P_step; try assumption; [destruct Hk; [left; assumption|right; lia]|lia].
+  apply IH; try assumption. apply P_step; try assumption; [destruct Hk; [left; assumption|right; lia]|lia|destruct Hcp; [left; assumption|right; lia]].
 Qed.
 
 (* ---- released: the button timer runs towards the multi-click time-out ---- *)
@@ -505,10 +546,10 @@ Proof.
   split; [|reflexivity]. constructor; [lia| |]; rewrite filter_app; cbn [filter famo isloc]; rewrite ?E1, ?E2; assumption.
 Qed.
 (* a press recognised while released with the timer running, or at rest *)
-Lemma do_press_R Tr k F L v : -1 <= k <= 99 -> RSt Tr k F L v ->
+Lemma do_press_R Tr k F L v : -1 <= k <= 99 -> (on_toggle_en c = false \/ k + 1 < CFG_PRESS_COUNT) -> RSt Tr k F L v ->
   PSt (a_now v) (if k =? -1 then -1 else k + 1) F L (aact c (ANotify ST_ACTIVE) v).
 Proof.
-  intros Hk [nw td ou H1 H2 H3]. cbn [a_now]. destruct (k =? -1) eqn:E.
+  intros Hk Htg [nw td ou H1 H2 H3]. cbn [a_now]. destruct (k =? -1) eqn:E.
   - apply Z.eqb_eq in E. subst k. rewrite ev_press_ovf by exact HA. constructor; [lia|assumption|assumption].
   - apply Z.eqb_neq in E. rewrite ev_press by (try assumption; try reflexivity; lia). constructor; [lia|assumption|assumption].
 Qed.
@@ -516,7 +557,7 @@ Lemma do_press_Z nw ls si td ta ou :
   asilent_ret c (mkmv nw ST_INACTIVE 0 M A g ls si false td ta rl false ou) = false ->
   PSt nw 1 (filter famo ou) (filter isloc ou)
       (aact c (ANotify ST_ACTIVE) (mkmv nw ST_INACTIVE 0 M A g ls si false td ta rl false ou)).
-Proof. intros Hs. rewrite ev_press by (try assumption; lia). constructor; [lia|reflexivity|reflexivity]. Qed.
+Proof. intros Hs. rewrite ev_press by (try assumption; try lia; right; reflexivity). constructor; [lia|reflexivity|reflexivity]. Qed.
 
 (* ---- N clicks ---- *)
 Record clk := { iP : list astep; iR : list astep }.
@@ -534,6 +575,16 @@ Fixpoint gok (first : bool) (v : mv) (cl : list clk) : Prop :=
     (r <> [] -> CYCLE_US + J < a_now v2 - a_now v1 < MULTICLICK_US) /\    (* quick: the next press comes within the multi-click time *)
     (r = [] -> MULTICLICK_US + CYCLE_US + J <= a_now v2 - a_now v1) /\    (* then silence *)
     gok false v2 r
+  end.
+
+(* every press of the gesture is shorter than the configuration-button hold time (only matters for such a button) *)
+Fixpoint gshort (v : mv) (cl : list clk) : Prop :=
+  match cl with
+  | [] => True
+  | x :: r =>
+    let v1 := arun c (iP x) (aact c (ANotify ST_ACTIVE) v) in
+    let v2 := arun c (iR x) (aact c (ANotify ST_INACTIVE) v1) in
+    a_now v1 - a_now v < CFG_PRESS_US /\ gshort v2 r
   end.
 
 Definition verdict (N : Z) (F0 L0 : list out) (v : mv) : Prop :=
@@ -555,6 +606,8 @@ Lemma clicks_from_P cl : forall n T k F L F0 L0 v x,
   let v1 := arun c (iP x) v in
   let v2 := arun c (iR x) (aact c (ANotify ST_INACTIVE) v1) in
   (k = 1 -> a_now v1 - T < HOLD_US) ->
+  (on_toggle_en c = false \/ n + 1 + Z.of_nat (length cl) < CFG_PRESS_COUNT) ->
+  (on_hold_en c = false \/ (a_now v1 - T < CFG_PRESS_US /\ gshort v2 cl)) ->
   (cl <> [] -> CYCLE_US + J < a_now v2 - a_now v1 < MULTICLICK_US) ->
   (cl = [] -> MULTICLICK_US + CYCLE_US + J <= a_now v2 - a_now v1) ->
   gok false v2 cl ->
@@ -562,7 +615,7 @@ Lemma clicks_from_P cl : forall n T k F L F0 L0 v x,
   a_now (arun c (gtrace cl) v2) - T < TWO32 ->
   verdict (n + 1 + Z.of_nat (length cl)) F0 L0 (arun c (gtrace cl) v2).
 Proof.
-  induction cl as [|y r IH]; intros n T k F L F0 L0 v x Hn Hlen HP Hst HL HiP HiR v1 v2 Hh Hq Hs Hg Ht H32.
+  induction cl as [|y r IH]; intros n T k F L F0 L0 v x Hn Hlen HP Hst HL HiP HiR v1 v2 Hh Htg Hsh Hq Hs Hg Ht H32.
   - (* last click *)
     clear Hq. specialize (Hs eq_refl). cbn [gtrace arun fold_left length Z.of_nat] in *. rewrite Z.add_0_r.
     destruct (timely_run_app (iP x) _ v Ht) as [Tp Tr']. fold v1 in Tr'. destruct Tr' as [_ Tr'].
@@ -570,7 +623,8 @@ Proof.
     pose proof (now_arun c (iR x) (aact c (ANotify ST_INACTIVE) v1)) as N1. pose proof (now_aact c (ANotify ST_INACTIVE) v1) as N2.
     assert (HT1 : T <= a_now v) by (destruct HP; cbn; lia). pose proof (now_arun c (iP x) v) as N0. fold v1 in N0. fold v2 in N1.
     assert (HP1 : PSt T k F L v1).
-    { apply P_run; try assumption; [|fold v1; lia]. fold v1. destruct (Z.eq_dec k 1) as [E|E]; [right; apply Hh; exact E|left; exact E]. }
+    { apply P_run; try assumption; [|fold v1; lia|fold v1; destruct Hsh as [?|[? _]]; [left; assumption|right; assumption]].
+      fold v1. destruct (Z.eq_dec k 1) as [E|E]; [right; apply Hh; exact E|left; exact E]. }
     pose proof (do_release T k F L v1 HP1) as HR0.
     assert (Hk : k = -1 \/ 0 <= k <= 100) by (destruct Hst as [(_ & E & _)|(_ & E & _)]; lia).
     destruct (R_run (a_now v1) k F L (iR x) Unfired _ Hk HR0 HiR TR ltac:(fold v2; lia)) as (ph & HI & b1 & b2 & b3 & b4).
@@ -601,7 +655,8 @@ Proof.
     pose proof (now_aact c (ANotify ST_INACTIVE) w1) as N5. pose proof (now_arun c (iR y) (aact c (ANotify ST_INACTIVE) w1)) as N6. fold w2 in N6.
     pose proof (now_arun c (gtrace r) w2) as N7.
     assert (HP1 : PSt T k F L v1).
-    { apply P_run; try assumption; [|fold v1; lia]. fold v1. destruct (Z.eq_dec k 1) as [E|E]; [right; apply Hh; exact E|left; exact E]. }
+    { apply P_run; try assumption; [|fold v1; lia|fold v1; destruct Hsh as [?|[? _]]; [left; assumption|right; assumption]].
+      fold v1. destruct (Z.eq_dec k 1) as [E|E]; [right; apply Hh; exact E|left; exact E]. }
     pose proof (do_release T k F L v1 HP1) as HR0.
     assert (Hk : k = -1 \/ 0 <= k <= 100) by (destruct Hst as [(_ & E & _)|(_ & E & _)]; cbn [length] in Hlen; lia).
     destruct (R_run (a_now v1) k F L (iR x) Unfired _ Hk HR0 HiR TR ltac:(fold v2; lia)) as (ph & HI & b1 & b2 & b3 & b4).
@@ -613,7 +668,9 @@ Proof.
     destruct Tg as [_ Tg]. fold w in Tg.
     replace (n + 1 + Z.of_nat (length (y :: r))) with ((n + 1) + 1 + Z.of_nat (length r)) by (cbn [length]; lia).
     assert (HPw : PSt (a_now v2) (if k1 k =? -1 then -1 else k1 k + 1) ((if M <=? k then xt t k else []) ++ F) L w).
-    { eapply do_press_R; [|exact HRS]. unfold k1. destruct (M <=? k); lia. }
+    { eapply do_press_R; [| |exact HRS]; [unfold k1; destruct (M <=? k); lia|].
+      destruct Htg as [?|Htg]; [left; assumption|right]. cbn [length] in Htg. unfold k1.
+      destruct Hst as [(_ & -> & _)|(_ & -> & _)]; destruct (M <=? _); lia. }
     eapply (IH (n + 1) (a_now v2) _ _ L F0 L0 w y); try eassumption; try lia.
     + cbn [length] in Hlen. lia.
     + (* the bookkeeping of counter and reported trigger *)
@@ -629,6 +686,8 @@ Proof.
     + intros E. exfalso. unfold k1 in E. destruct Hst as [(Hc & -> & _)|(_ & -> & _)].
       * destruct (M <=? n + 1); [cbn in E; lia|]. replace (n + 1 =? -1) with false in E by (symmetry; apply Z.eqb_neq; lia). lia.
       * replace (M <=? -1) with false in E by (symmetry; apply Z.leb_gt; lia). cbn in E. lia.
+    + destruct Htg as [?|Htg]; [left; assumption|right]. cbn [length] in Htg. lia.
+    + destruct Hsh as [?|[_ Hsh]]; [left; assumption|right]. cbn [gshort] in Hsh. fold w w1 w2 in Hsh. exact Hsh.
     + fold w1 w2. lia.
 Qed.
 
@@ -639,9 +698,12 @@ Theorem gesture_thm : forall x cl nw ls si td ta ou,
   asilent_ret c v0 = false ->
   Z.of_nat (length (x :: cl)) < 99 ->
   gok true v0 (x :: cl) -> timely_run tr v0 -> a_now (arun c tr v0) - nw < TWO32 ->
+  (* a configuration button: fewer clicks than enter configuration mode, no press as long as the configuration hold *)
+  (on_toggle_en c = false \/ Z.of_nat (length (x :: cl)) < CFG_PRESS_COUNT) ->
+  (on_hold_en c = false \/ gshort v0 (x :: cl)) ->
   verdict (Z.of_nat (length (x :: cl))) (filter famo ou) (filter isloc ou) (arun c tr v0).
 Proof.
-  intros x cl nw ls si td ta ou v0 tr Hsil Hlen Hg Ht H32. subst tr. cbn [gtrace] in *.
+  intros x cl nw ls si td ta ou v0 tr Hsil Hlen Hg Ht H32 Htg Hsh. subst tr. cbn [gtrace] in *.
   change (arun c (ANotify ST_ACTIVE :: iP x ++ ANotify ST_INACTIVE :: iR x ++ gtrace cl) v0)
     with (arun c (iP x ++ ANotify ST_INACTIVE :: iR x ++ gtrace cl) (aact c (ANotify ST_ACTIVE) v0)) in *.
   rewrite arun_app in *.
@@ -651,6 +713,11 @@ Proof.
   cbn [gok] in Hg. fold v in Hg. destruct Hg as (g1 & g2 & g3 & g4 & g5 & g6).
   destruct Ht as [_ Ht]. fold v in Ht.
   pose proof (do_press_Z nw ls si td ta ou Hsil) as HP. fold v0 v in HP.
+  assert (Htg' : on_toggle_en c = false \/ 0 + 1 + Z.of_nat (length cl) < CFG_PRESS_COUNT)
+    by (destruct Htg as [?|Htg]; [left; assumption|right; cbn [length] in Htg; lia]).
+  assert (Hsh' : on_hold_en c = false \/
+                 (a_now (arun c (iP x) v) - nw < CFG_PRESS_US /\ gshort (arun c (iR x) (aact c (ANotify ST_INACTIVE) (arun c (iP x) v))) cl)).
+  { destruct Hsh as [?|Hsh]; [left; assumption|right]. cbn [gshort] in Hsh. fold v in Hsh. exact Hsh. }
   replace (Z.of_nat (length (x :: cl))) with (0 + 1 + Z.of_nat (length cl)) by (cbn [length]; lia).
   eapply (clicks_from_P cl 0 nw 1 _ _ _ _ v x); try eassumption; try reflexivity; try lia.
   - cbn [length] in Hlen. lia.
@@ -662,24 +729,32 @@ Qed.
 Definition ht (t : Z) : list out := filter famo (trig_out A t CAP_HOLD).
 Inductive HSt (T : Z) (F L : list out) : mv -> Prop :=
 | HSt_i nw td ou : T <= nw -> filter famo ou = F -> filter isloc ou = L ->
-    HSt T F L (mkmv nw ST_ACTIVE 0 M A g (u32 (boot c + T)) false false td true rl false ou).
+    HSt T F L (mkmv nw ST_ACTIVE 0 M A g (u32 (boot c + T)) false (on_hold_en c) td true rl false ou).
 Definition HInv (T : Z) (F L : list out) (held : bool) (v : mv) : Prop :=
   if held then exists t, HSt T (ht t ++ F) L v
   else PSt T 1 F L v /\ a_tdue v < T + HOLD_US + CYCLE_US.
 
 Lemma H_step T F L held v a : HInv T F L held v -> idle a = true -> a_now v - T < TWO32 ->
+  (on_hold_en c = false \/ a_now v - T < CFG_PRESS_US) ->
   exists held', HInv T F L held' (aact c a v) /\ (held = true -> held' = true) /\
                 (held' = true -> held = true \/ HOLD_US <= a_now v - T).
 Proof.
-  intros HI Hi H32. ty. pose proof CF as [Cy _ _ _ _ _ _]. destruct held.
+  intros HI Hi H32 Hcp. ty. pose proof CF as [Cy _ _ _ _ _ _]. destruct held.
   - destruct HI as (t0 & HS). exists true. split; [|auto]. exists t0.
-    destruct HS as [nw td ou H1 H2 H3]. destruct a; try discriminate.
+    revert H32 Hcp. destruct HS as [nw td ou H1 H2 H3]. cbn [a_now]. intros H32 Hcp. destruct a; try discriminate.
     + unfold aact. gv. destruct (nw <=? t) eqn:E; [apply Z.leb_le in E; unfold set_now_v; gv; constructor; try assumption; lia|constructor; assumption].
-    + rewrite ev_tim_idle by reflexivity. constructor; assumption.
+    + destruct (on_hold_en c) eqn:EO.
+      * destruct (td <=? nw) eqn:E0.
+        -- apply Z.leb_le in E0. rewrite ev_tim_held by (try assumption; lia).
+           pose proof (HSt_i T (ht t0 ++ F) L nw (td + CYCLE_US) ou H1 H2 H3) as X. rewrite EO in X. exact X.
+        -- rewrite ev_tim_idle by (rewrite E0; reflexivity).
+           pose proof (HSt_i T (ht t0 ++ F) L nw td ou H1 H2 H3) as X. rewrite EO in X. exact X.
+      * rewrite ev_tim_idle by reflexivity.
+        pose proof (HSt_i T (ht t0 ++ F) L nw td ou H1 H2 H3) as X. rewrite EO in X. exact X.
     + unfold aact, motV, arelc. gv. rewrite Tm, andb_false_r. constructor; assumption.
     + destruct (idle_out o ou Hi) as [E1 E2]. unfold aact, aemit. gv. constructor; [assumption|congruence|congruence].
     + unfold aact. gv. constructor; assumption.
-  - destruct HI as [HP E]. revert H32 E. destruct HP as [nw td ou H1 H2 H3]. cbn [a_now a_tdue]. intros H32 E.
+  - destruct HI as [HP E]. revert H32 E Hcp. destruct HP as [nw td ou H1 H2 H3]. cbn [a_now a_tdue]. intros H32 E Hcp.
     destruct a; try discriminate.
     + exists false. split; [|split; [discriminate|intros; discriminate]].
       unfold aact. gv. destruct (nw <=? t) eqn:E0; [apply Z.leb_le in E0; unfold set_now_v; gv|]; (split; [constructor; try assumption; lia|cbn; lia]).
@@ -702,14 +777,15 @@ Proof.
 Qed.
 
 Lemma H_run T F L l : forall held v, HInv T F L held v -> all_idle l -> a_now (arun c l v) - T < TWO32 ->
+  (on_hold_en c = false \/ a_now (arun c l v) - T < CFG_PRESS_US) ->
   exists held', HInv T F L held' (arun c l v) /\ (held = true -> held' = true).
 Proof.
-  induction l as [|a l IH]; intros held v HI Hi H32; [exists held; auto|].
+  induction l as [|a l IH]; intros held v HI Hi H32 Hcp; [exists held; auto|].
   unfold all_idle in Hi. cbn in Hi. apply andb_prop in Hi as [Hi1 Hi2].
   change (arun c (a :: l) v) with (arun c l (aact c a v)) in *.
   pose proof (now_arun c l (aact c a v)). pose proof (now_aact c a v).
-  destruct (H_step T F L held v a HI Hi1 ltac:(lia)) as (h1 & I1 & a1 & _).
-  destruct (IH h1 _ I1 Hi2 H32) as (h2 & I2 & b1). exists h2. split; [exact I2|]. intros E. apply b1, a1, E.
+  destruct (H_step T F L held v a HI Hi1 ltac:(lia) ltac:(destruct Hcp; [left; assumption|right; lia])) as (h1 & I1 & a1 & _).
+  destruct (IH h1 _ I1 Hi2 H32 Hcp) as (h2 & I2 & b1). exists h2. split; [exact I2|]. intros E. apply b1, a1, E.
 Qed.
 
 Lemma xt_zero t : xt t 0 = [].
@@ -724,16 +800,17 @@ Theorem hold_thm : forall iPl iRl nw ls si td ta ou,
   HOLD_US + CYCLE_US + J <= a_now v1 - nw ->                       (* pressed long enough *)
   MULTICLICK_US + CYCLE_US + J <= a_now v2 - a_now v1 ->           (* then silence *)
   timely_run (ANotify ST_ACTIVE :: iPl ++ ANotify ST_INACTIVE :: iRl) v0 -> a_now v2 - nw < TWO32 -> CYCLE_US < HOLD_US ->
+  (on_hold_en c = false \/ a_now v1 - nw < CFG_PRESS_US) ->       (* a configuration button: released before its hold time *)
   exists t, ZSt (ht t ++ filter famo ou) (filter isloc ou) v2.
 Proof.
-  intros iPl iRl nw ls si td ta ou v0 v1 v2 Hsil HiP HiR Hh Hs Ht H32 HCH. pose proof CF as [Cy _ _ _ _ _ _].
+  intros iPl iRl nw ls si td ta ou v0 v1 v2 Hsil HiP HiR Hh Hs Ht H32 HCH Hcp. pose proof CF as [Cy _ _ _ _ _ _].
   destruct Ht as [_ Ht]. destruct (timely_run_app iPl _ _ Ht) as [TP TR]. fold v1 in TR. destruct TR as [_ TR].
   pose proof (now_arun c iRl (aact c (ANotify ST_INACTIVE) v1)) as N1. fold v2 in N1.
   pose proof (now_aact c (ANotify ST_INACTIVE) v1) as N2.
   pose proof (do_press_Z nw ls si td ta ou Hsil) as HP. fold v0 in HP.
   assert (HI0 : HInv nw (filter famo ou) (filter isloc ou) false (aact c (ANotify ST_ACTIVE) v0)).
-  { split; [exact HP|]. unfold v0. rewrite ev_press by (try assumption; lia). cbn [a_tdue]. lia. }
-  destruct (H_run nw _ _ iPl false _ HI0 HiP ltac:(fold v1; lia)) as (held & HI1 & _). fold v1 in HI1.
+  { split; [exact HP|]. unfold v0. rewrite ev_press by (try assumption; try lia; right; reflexivity). cbn [a_tdue]. lia. }
+  destruct (H_run nw _ _ iPl false _ HI0 HiP ltac:(fold v1; lia) Hcp) as (held & HI1 & _). fold v1 in HI1.
   destruct held.
   2:{ exfalso. destruct HI1 as [HP1 E]. pose proof (timely_run_end _ _ TP) as TL. fold v1 in TL. revert E TL Hh.
       destruct HP1 as [nw1 td1 ou1 H1 H2 H3]. unfold timely. cbn [a_now a_tdue a_ton]. intros E TL Hh. specialize (TL eq_refl). lia. }
@@ -756,17 +833,75 @@ End Mono.
 Lemma pend_t_on s : t_on s = true -> now s - t_due s <= pend s.
 Proof. intros H. unfold pend. rewrite H. lia. Qed.
 
-Lemma timely_from_late c J ms : forall s,
-  cfg_btn c = false -> forallb (fun m => negb (is_trig m)) ms = true ->
+Lemma timely_from_lateG c J ms : forall s,
+  forallb (fun m => negb (is_trig m)) ms = true ->
   pend s <= J -> late (mrun c ms s) <= J -> timely_run c J (atrace c ms s) (view s).
 Proof.
-  induction ms as [|m ms IH]; intros s Hc Hn Hp Hl.
+  induction ms as [|m ms IH]; intros s Hn Hp Hl.
   - cbn. split; [|exact I]. unfold timely. cbn. intros H. pose proof (pend_t_on s H). lia.
   - cbn in Hn. apply andb_prop in Hn as [H1 H2]. apply negb_true_iff in H1.
     cbn [atrace timely_run]. split.
     + unfold timely. cbn. intros H. pose proof (pend_t_on s H). lia.
-    + rewrite <- sim_step by assumption. rewrite mrun_cons in Hl. apply IH; try assumption.
+    + rewrite <- sim_stepG by assumption. rewrite mrun_cons in Hl. apply IH; try assumption.
       pose proof (mstep_pend c m s). pose proof (mrun_late c ms (mstep c m s)). lia.
+Qed.
+Lemma timely_from_late c J ms : forall s,
+  cfg_btn c = false -> forallb (fun m => negb (is_trig m)) ms = true ->
+  pend s <= J -> late (mrun c ms s) <= J -> timely_run c J (atrace c ms s) (view s).
+Proof. intros s _. apply timely_from_lateG. Qed.
+Lemma cfg_off c : cfg_btn c = false -> on_toggle_en c = false /\ on_hold_en c = false.
+Proof. intros H. unfold on_toggle_en, on_hold_en. rewrite H. auto. Qed.
+
+(* ---- any monostable button, the configuration button included ---- *)
+Theorem at_single_trigger_cfg_thm : forall c A M g rl J ms s x cl nw ls si td ta ou,
+  is_mono c = true -> A <> 0 -> 2 <= M -> CYCLE_US + J < MULTICLICK_US ->
+  forallb (fun m => negb (is_trig m)) ms = true ->
+  view s = mkmv nw ST_INACTIVE 0 M A g ls si false td ta rl false ou ->
+  asilent_ret c (view s) = false ->
+  atrace c ms s = gtrace (x :: cl) -> Z.of_nat (length (x :: cl)) < 99 ->
+  gok c J true (view s) (x :: cl) ->
+  pend s <= J -> late (mrun c ms s) <= J -> now (mrun c ms s) - now s < TWO32 ->
+  (on_toggle_en c = false \/ Z.of_nat (length (x :: cl)) < CFG_PRESS_COUNT) ->
+  (on_hold_en c = false \/ gshort c (view s) (x :: cl)) ->
+  verdict c A M g (Z.of_nat (length (x :: cl))) (filter famo (outs s)) (filter isloc (outs s)) (view (mrun c ms s)).
+Proof.
+  intros c A M g rl J ms s x cl nw ls si td ta ou Hm HA HM HJM Hn Hv Hsil Htr Hlen Hg Hp Hl H32 Htg Hsh.
+  pose proof (timely_from_lateG c J ms s Hn Hp Hl) as HT. rewrite Htr in HT.
+  assert (Eo : outs s = ou) by (change (outs s) with (a_outs (view s)); rewrite Hv; reflexivity).
+  assert (En : now s = nw) by (change (now s) with (a_now (view s)); rewrite Hv; reflexivity).
+  assert (H32' : a_now (arun c (gtrace (x :: cl)) (view s)) - nw < TWO32).
+  { rewrite <- Htr, <- sim_runG by assumption. change (a_now (view (mrun c ms s))) with (now (mrun c ms s)). lia. }
+  rewrite sim_runG by assumption. rewrite Htr, Eo. rewrite Hv in *.
+  apply (gesture_thm c Hm A M g rl J HA HM HJM x cl nw ls si td ta ou); assumption.
+Qed.
+
+Theorem at_hold_cfg_thm : forall c A M g rl J ms s iPl iRl nw ls si td ta ou,
+  is_mono c = true -> A <> 0 -> 2 <= M -> 0 <= J -> CYCLE_US + J < MULTICLICK_US ->
+  forallb (fun m => negb (is_trig m)) ms = true ->
+  view s = mkmv nw ST_INACTIVE 0 M A g ls si false td ta rl false ou ->
+  asilent_ret c (view s) = false ->
+  atrace c ms s = ANotify ST_ACTIVE :: iPl ++ ANotify ST_INACTIVE :: iRl -> all_idle iPl -> all_idle iRl ->
+  let v1 := arun c iPl (aact c (ANotify ST_ACTIVE) (view s)) in
+  HOLD_US + CYCLE_US + J <= a_now v1 - now s ->
+  MULTICLICK_US + CYCLE_US + J <= now (mrun c ms s) - a_now v1 ->
+  pend s <= J -> late (mrun c ms s) <= J -> now (mrun c ms s) - now s < TWO32 ->
+  (on_hold_en c = false \/ a_now v1 - now s < CFG_PRESS_US) ->
+  exists t, ZSt A M g (ht c A t ++ filter famo (outs s)) (filter isloc (outs s)) (view (mrun c ms s)).
+Proof.
+  intros c A M g rl J ms s iPl iRl nw ls si td ta ou Hm HA HM HJ HJM Hn Hv Hsil Htr HiP HiR v1 Hh Hs Hp Hl H32 Hcp.
+  pose proof (timely_from_lateG c J ms s Hn Hp Hl) as HT. rewrite Htr in HT.
+  assert (Eo : outs s = ou) by (change (outs s) with (a_outs (view s)); rewrite Hv; reflexivity).
+  assert (En : now s = nw) by (change (now s) with (a_now (view s)); rewrite Hv; reflexivity).
+  assert (Ev : view (mrun c ms s) = arun c iRl (aact c (ANotify ST_INACTIVE) v1)).
+  { rewrite sim_runG by assumption. rewrite Htr.
+    change (arun c (ANotify ST_ACTIVE :: iPl ++ ANotify ST_INACTIVE :: iRl) (view s))
+      with (arun c (iPl ++ ANotify ST_INACTIVE :: iRl) (aact c (ANotify ST_ACTIVE) (view s))).
+    rewrite arun_app. reflexivity. }
+  assert (En2 : now (mrun c ms s) = a_now (arun c iRl (aact c (ANotify ST_INACTIVE) v1))) by (rewrite <- Ev; reflexivity).
+  rewrite Ev, Eo. subst v1. rewrite Hv in *.
+  assert (HCH : CYCLE_US < HOLD_US) by (vm_compute; reflexivity).
+  apply (hold_thm c Hm A M g rl J HA HM HJ HJM iPl iRl nw ls si td ta ou); try assumption; try lia.
+  destruct Hcp; [left; assumption|right; lia].
 Qed.
 
 Theorem at_single_trigger_thm : forall c A M g rl J ms s x cl nw ls si td ta ou,
@@ -782,13 +917,8 @@ Theorem at_single_trigger_thm : forall c A M g rl J ms s x cl nw ls si td ta ou,
   verdict c A M g (Z.of_nat (length (x :: cl))) (filter famo (outs s)) (filter isloc (outs s)) (view (mrun c ms s)).
 Proof.
   intros c A M g rl J ms s x cl nw ls si td ta ou Hm Hc HA HM HJM Hn Hv Hsil Htr Hlen Hg Hp Hl H32.
-  pose proof (timely_from_late c J ms s Hc Hn Hp Hl) as HT. rewrite Htr in HT.
-  assert (Eo : outs s = ou) by (change (outs s) with (a_outs (view s)); rewrite Hv; reflexivity).
-  assert (En : now s = nw) by (change (now s) with (a_now (view s)); rewrite Hv; reflexivity).
-  assert (H32' : a_now (arun c (gtrace (x :: cl)) (view s)) - nw < TWO32).
-  { rewrite <- Htr, <- sim_run by assumption. change (a_now (view (mrun c ms s))) with (now (mrun c ms s)). lia. }
-  rewrite sim_run by assumption. rewrite Htr, Eo. rewrite Hv in *.
-  apply (gesture_thm c Hm A M g rl J HA HM HJM x cl nw ls si td ta ou); assumption.
+  destruct (cfg_off c Hc) as [E1 E2].
+  eapply at_single_trigger_cfg_thm; try eassumption; left; assumption.
 Qed.
 
 Theorem at_hold_thm : forall c A M g rl J ms s iPl iRl nw ls si td ta ou,
@@ -804,16 +934,6 @@ Theorem at_hold_thm : forall c A M g rl J ms s iPl iRl nw ls si td ta ou,
   exists t, ZSt A M g (ht c A t ++ filter famo (outs s)) (filter isloc (outs s)) (view (mrun c ms s)).
 Proof.
   intros c A M g rl J ms s iPl iRl nw ls si td ta ou Hm Hc HA HM HJ HJM Hn Hv Hsil Htr HiP HiR v1 Hh Hs Hp Hl H32.
-  pose proof (timely_from_late c J ms s Hc Hn Hp Hl) as HT. rewrite Htr in HT.
-  assert (Eo : outs s = ou) by (change (outs s) with (a_outs (view s)); rewrite Hv; reflexivity).
-  assert (En : now s = nw) by (change (now s) with (a_now (view s)); rewrite Hv; reflexivity).
-  assert (Ev : view (mrun c ms s) = arun c iRl (aact c (ANotify ST_INACTIVE) v1)).
-  { rewrite sim_run by assumption. rewrite Htr.
-    change (arun c (ANotify ST_ACTIVE :: iPl ++ ANotify ST_INACTIVE :: iRl) (view s))
-      with (arun c (iPl ++ ANotify ST_INACTIVE :: iRl) (aact c (ANotify ST_ACTIVE) (view s))).
-    rewrite arun_app. reflexivity. }
-  assert (En2 : now (mrun c ms s) = a_now (arun c iRl (aact c (ANotify ST_INACTIVE) v1))) by (rewrite <- Ev; reflexivity).
-  rewrite Ev, Eo. subst v1. rewrite Hv in *.
-  assert (HCH : CYCLE_US < HOLD_US) by (vm_compute; reflexivity).
-  apply (hold_thm c Hm A M g rl J HA HM HJ HJM iPl iRl nw ls si td ta ou); try assumption; lia.
+  destruct (cfg_off c Hc) as [E1 E2].
+  eapply at_hold_cfg_thm; try eassumption. left; assumption.
 Qed.
